@@ -32,18 +32,26 @@ COMPONENTS = {
     'stub': ['user objective (run family)', 'PRNG seam', 'joblib', 'time.time', 'uuid1'],
 }
 PROBES_EXPECTED = ['archive_family', 'run_family', 'reorder', 'duplicate', 'evicts_two_or_more', 'duplicate_offer_rejected',
-                   'dominated_offer_rejected', 'infeasible_offers', 'real_valued_violation_degree', 'truncate_checked', 'eps_comparator', 'pareto_comparator']
+                   'dominated_offer_rejected', 'default_comparator_after_smaller_problem', 'twin_design_vectors', 'infeasible_offers', 'real_valued_violation_degree', 'truncate_checked', 'eps_comparator', 'pareto_comparator']
 
 
-class _Sol:
-    """a minimal solution object: Archive only reads costs_signed and features"""
-    __slots__ = ('costs_signed', 'features', 'tag', 'vector')
+_SolCls = []
 
-    def __init__(self, cs, tag, feat):
-        self.costs_signed = cs
-        self.features = {'crowding_distance': feat}
-        self.tag = tag
-        self.vector = [float(tag)]
+
+def _Sol(cs, tag, feat, vec=None):
+    """an offered solution: a real Individual (Archive.remove / list.remove go through Individual.__eq__, which compares
+    design vectors); several offers may carry the SAME design vector with different costs - a noisy objective evaluated twice"""
+    if not _SolCls:
+        from artap.individual import Individual
+
+        class Sol(Individual):
+            pass
+        _SolCls.append(Sol)
+    s_ = _SolCls[0]([float(tag)] if vec is None else list(vec))
+    s_.costs_signed = cs
+    s_.features['crowding_distance'] = feat
+    s_.tag = tag
+    return s_
 
 
 def _content(arch):
@@ -56,7 +64,7 @@ def _deliver(ctx, arch, offers, order, label, cmp_name):
     offered = []
     for pos, idx in enumerate(order):
         s = offers[idx]
-        sol = _Sol(list(s.costs_signed), s.tag, s.features['crowding_distance'])
+        sol = _Sol(list(s.costs_signed), s.tag, s.features['crowding_distance'], s.vector)
         before = list(arch)
         try:
             res = arch.add(sol)
@@ -102,7 +110,8 @@ def _archive(D):
     m = 1 + D.dec('cfg', 'm', 3)
     k = 1 + D.dec('cfg', 'k', 16)
     span = (3, 5, 9)[D.dec('cfg', 'span', 3)]
-    use_eps = D.dec('cfg', 'cmp', 2) == 1
+    cmpk = D.dec('cfg', 'cmp', 3)
+    use_eps = cmpk >= 1
     eps = (0.1, 0.01, 0.5, 1.0, [0.1, 0.3])[D.dec('cfg', 'eps', 5)]
     infeas = D.weighted('cfg', 'infeasible', (2, 1))
     offers = []
@@ -121,12 +130,27 @@ def _archive(D):
             ctx.probe('real_valued_violation_degree')
         cs.append(mk)
         fv = D.dec('work', ('feat', i), 8)
-        offers.append(_Sol(cs, i, float(fv) if fv < 6 else math.inf))     # crowding distances are often infinite
+        twin = [float(D.dec('work', ('vec', i), 3))] if D.dec('cfg', 'twins', 2) else None
+        offers.append(_Sol(cs, i, float(fv) if fv < 6 else math.inf, twin))     # crowding distances are often infinite
+
+    if cmpk == 2:
+        # the library's default: Archive() shares ONE EpsilonDominance([0.1, 0.1]) instance between all archives of the
+        # process; it is used for a smaller problem first (state kept inside the comparator must not leak)
+        eps = [0.1, 0.1]
+        pre = Archive()
+        for j in range(2):
+            pre.add(_Sol([0.25 * j, False], 100 + j, 0.0))      # equal markers: the objective scan runs
+        ctx.probe('default_comparator_after_smaller_problem')
+
+    if any(tuple(a_.vector) == tuple(b_.vector) for i_, a_ in enumerate(offers) for b_ in offers[i_ + 1:]):
+        ctx.probe('twin_design_vectors')
 
     def fresh():
+        if cmpk == 2:
+            return Archive()
         return Archive(dominance=EpsilonDominance(epsilons=eps)) if use_eps else Archive(dominance=ParetoDominance())
 
-    cmp_name = ('epsilon %r' % (eps,)) if use_eps else 'Pareto'
+    cmp_name = ('epsilon %r%s' % (eps, ' (default Archive())' if cmpk == 2 else '')) if use_eps else 'Pareto'
     ctx.probe('eps_comparator' if use_eps else 'pareto_comparator')
     o1 = list(range(k))
     o2 = sorted(range(k), key=lambda i: (D.dec('fault', ('reorder', i), 1 << 16), i))
